@@ -2,6 +2,7 @@ import SLModel.Lemmas.CursorBytes
 import SLModel.Lemmas.PlanLeaf
 import SLModel.Lemmas.Script
 import SLModel.Core.Msm
+import SLModel.Lemmas.RescoreDrop
 /-!
 # C16 — search never panics on any request   (claimed level: **partial**)
 
@@ -40,6 +41,10 @@ panic, exactly when it does:
   exactly one value and never underflows (`wellformed_compiles_depth_one`,
   `wellformed_runs`).  `compile ok → no underflow` is *not* a fact of the code (`"+"`
   compiles, `compiles_but_underflows`): underflow is absorbed by `?` and yields `None`.
+* **rescore** (`Core/RescoreDrop`): `rescore_drop_never_panics` — removing the window hits the
+  rescore query rejects never calls `Vec::remove` out of range and keeps exactly the other hits,
+  for every collection order of the rejected indices (`rescore_drop_order_irrelevant`);
+  `unsorted_removal_breaks` shows what the sort protects against.
 * **minimum_should_match** (`Core/Msm`): the `&pct[..len-1]` slice is always on a char
   boundary (`msm_no_panic`), the result never exceeds the term count (`msm_le_termCount`).
 
@@ -641,6 +646,58 @@ example :
     compile [36] [] [] = none ∧ compile [49, 46, 46, 50] [] [] = none ∧
     compile [40, 49] [] [] = none ∧ compile [120] [] [] = none ∧ (compile [120] [] [[120]]).isSome = true := by
   decide
+
+
+/-! ## rescore: removing the window hits the rescore query rejects -/
+
+section Rescore
+open SL.RescoreDrop
+variable {α : Type}
+
+/-- **`rescore_hits` never removes out of range**: whatever indices of the hit list were
+collected as rejected, and in whatever order (the code collects them segment by segment from a
+hash map), sorting + de-duplicating + removing back to front succeeds (`Vec::remove` never
+panics) and leaves exactly the hits that were not rejected, in their order -/
+theorem rescore_drop_never_panics (hits : List α) (toRemove : List Nat)
+    (h : ∀ i ∈ toRemove, i < hits.length) :
+    dropRejected hits toRemove = some (keepSpec hits toRemove) := by
+  obtain ⟨hp, hm⟩ := sortDescDedup_spec toRemove
+  unfold dropRejected
+  rw [removeSeq_desc _ hits (fun i hi => h i ((hm i).mp hi)) hp]
+  simp only [keepSpec]
+  rw [keepFrom_congr _ _ hm]
+
+/-- the collection order (and repetitions) of the rejected indices is irrelevant -/
+theorem rescore_drop_order_irrelevant (hits : List α) (rm rm' : List Nat)
+    (h : ∀ i ∈ rm, i < hits.length) (hs : ∀ y, y ∈ rm ↔ y ∈ rm') :
+    dropRejected hits rm = dropRejected hits rm' := by
+  rw [rescore_drop_never_panics hits rm h,
+    rescore_drop_never_panics hits rm' (fun i hi => h i ((hs i).mpr hi))]
+  simp only [keepSpec]
+  rw [keepFrom_congr _ _ hs]
+
+/-- the surviving list is never longer than the hit list, and nothing is dropped when
+nothing was rejected -/
+theorem rescore_drop_nothing_rejected (hits : List α) : dropRejected hits [] = some hits := by
+  rw [rescore_drop_never_panics hits [] (by simp)]
+  simp only [keepSpec]
+  rw [keepFrom_none [] hits 0 (by simp)]
+
+end Rescore
+
+/-- WHY THE SORT IS NEEDED (negative witnesses for a variant that removes in reverse
+collection order): with the rejected indices collected as `0, 2` (segment 0) then `1`
+(segment 1) the removal runs out of range — `Vec::remove` panics; with `2` collected before
+`0` the wrong hit is dropped silently -/
+theorem unsorted_removal_breaks :
+    SL.RescoreDrop.dropUnsorted [10, 20, 30] [0, 2, 1] = none ∧
+    SL.RescoreDrop.dropRejected [10, 20, 30] [0, 2, 1] = some [] ∧
+    SL.RescoreDrop.dropUnsorted [10, 20, 30, 40] [2, 0] = some [20, 30] ∧
+    SL.RescoreDrop.dropRejected [10, 20, 30, 40] [2, 0] = some [20, 40] := by
+  decide
+
+/-- non-vacuity: three of five window hits rejected, collected in segment order -/
+example : SL.RescoreDrop.dropRejected [1, 2, 3, 4, 5] [3, 0, 3, 1] = some [3, 5] := by decide
 
 /-! ## minimum_should_match -/
 
